@@ -50,36 +50,36 @@ type stream struct {
 
 // Event is one operation on a recorded endpoint.
 type Event struct {
-	Seq     int
-	T       time.Duration
-	Kind    string // read | write | close | reset
-	N       int
-	Data    []byte // writes only
-	ReadSum int64  // bytes returned by Read so far (after this event)
+	Seq      int
+	T        time.Duration
+	Kind     string // read | write | close | reset
+	N        int
+	Data     []byte // writes only
+	ReadSum  int64  // bytes returned by Read so far (after this event)
 	WriteSum int64
 }
 
 // Conn is one endpoint. It implements net.Conn.
 type Conn struct {
 	CutGraceful bool // CutAfterTotal closes with FIN (finClose) instead of a reset
-	CutFired bool // an injected CutAfterTotal reset has happened on this endpoint
-	n       *Net
-	ID      int
-	Name    string
-	in, out *stream
-	peer    *Conn
-	closed  bool
-	owner   *simrt.Proc
-	rdl     time.Time
-	wdl     time.Time
-	local   net.Addr
-	remote  net.Addr
-	Record  bool
-	Events  []Event
-	ReadSum  int64
-	WriteSum int64
-	Sent    []byte // everything ever written on this endpoint (if Record)
-	OnWrite func(c *Conn, p []byte) // observer, called before the bytes are queued
+	CutFired    bool // an injected CutAfterTotal reset has happened on this endpoint
+	n           *Net
+	ID          int
+	Name        string
+	in, out     *stream
+	peer        *Conn
+	closed      bool
+	owner       *simrt.Proc
+	rdl         time.Time
+	wdl         time.Time
+	local       net.Addr
+	remote      net.Addr
+	Record      bool
+	Events      []Event
+	ReadSum     int64
+	WriteSum    int64
+	Sent        []byte                  // everything ever written on this endpoint (if Record)
+	OnWrite     func(c *Conn, p []byte) // observer, called before the bytes are queued
 }
 
 type addr string
@@ -97,7 +97,7 @@ type Listener struct {
 	dials  int
 	// Profiles for accepted connections (server->client, client->server)
 	ToClient, ToServer Profile
-	Closed bool
+	Closed             bool
 	// RecordClient: record every operation of the dialling (client) endpoint
 	RecordClient bool
 	// OnAccept, if set, is called with the two endpoints right after the connection is made
@@ -543,7 +543,6 @@ func (c *Conn) IsClosed() bool { return c.closed }
 
 // Broken reports whether the connection was reset.
 func (c *Conn) Broken() bool { return c.in.reset || c.out.reset }
-
 
 // SetProfiles overrides the per-direction profiles of an established connection (harness side).
 func (c *Conn) SetProfiles(out, in Profile) { c.out.prof, c.in.prof = out, in }
